@@ -15,9 +15,9 @@ import (
 
 func init() {
 	core.Register(&core.Prop{
-		ID:    "C14",
-		Level: "exploration",
-		Rule: "PRNG include graphs (acyclic, depth <= 4, up to 7 files) of generated templates laid out in nested temporary directories; every file is independently: on disk only / in the cache only (ParseTemplateAndCache) / both with different content (disk must win) / missing; include arguments are literals, variables and filtered expressions; the top-level template is parsed with an absolute path, a relative path or no path (cwd), and includes occur inside loops, conditionals and captures after assigns. The output is compared with the reference model inlining the graph (files end with nothing, LF, CRLF or blank lines). Cache lifecycle: an includer parsed before its partial is registered, then the partial registered five times under one path (long, short, empty, longer) - every render of the old and of a freshly parsed includer inserts what the latest registration renders. Failure cases: missing file at any depth, nil/int/array/map argument, render error / syntax error / unknown tag / break or continue outside a loop inside an included file at any depth (also when the include itself stands in a loop), a directory or a path through a regular file. Non-trivial = at least one include is executed; distinct = distinct (graph sources, presence states, path mode).",
+		ID:         "C14",
+		Level:      "exploration",
+		Rule:       "PRNG include graphs (acyclic, depth <= 4, up to 7 files) of generated templates laid out in nested temporary directories; every file is independently: on disk only / in the cache only (ParseTemplateAndCache) / both with different content (disk must win) / missing; include arguments are literals, variables and filtered expressions; the top-level template is parsed with an absolute path, a relative path or no path (cwd), and includes occur inside loops, conditionals and captures after assigns. Every fifth graph is written with custom delimiters on an engine configured with them. The output is compared with the reference model inlining the graph (files end with nothing, LF, CRLF or blank lines). Cache lifecycle: an includer parsed before its partial is registered, then the partial registered five times under one path (long, short, empty, longer) - every render of the old and of a freshly parsed includer inserts what the latest registration renders. Failure cases: missing file at any depth, nil/int/array/map argument, render error / syntax error / unknown tag / break or continue outside a loop inside an included file at any depth (also when the include itself stands in a loop), a directory or a path through a regular file. Non-trivial = at least one include is executed; distinct = distinct (graph sources, presence states, path mode).",
 		Exhaustive: func(string) bool { return false },
 		Assumptions: []string{
 			"included files are resolved relative to the directory of the top-level template's parse path at every depth, also when the including file itself lies in a sub-directory (the engine parses an included file at its includer's location; the statement says: the path the template being rendered was parsed with, and: exactly the output that rendering the content inline gives)",
@@ -30,12 +30,13 @@ func init() {
 }
 
 type c14file struct {
-	arg      string // include argument that names it
-	state    int    // 0 disk, 1 cache, 2 both, 3 missing
-	prog     []gen.Node
-	cacheAlt []gen.Node
-	fail     int // 0 ok, 1 render error, 2 syntax error, 3 unknown tag
-	src      string
+	arg         string // include argument that names it
+	state       int    // 0 disk, 1 cache, 2 both, 3 missing
+	prog        []gen.Node
+	cacheAlt    []gen.Node
+	fail        int // 0 ok, 1 render error, 2 syntax error, 3 unknown tag
+	src         string
+	cacheAltSrc string // re-spelled cache alternative (custom delimiters)
 }
 
 func runC14(c *core.Ctx) {
@@ -177,6 +178,36 @@ func c14Case(c *core.Ctx, r *core.Rand, i int, caseDir string) {
 		return
 	}
 	e := liquid.NewEngine()
+	if i%5 == 4 {
+		// the whole graph written with custom delimiters, on an engine configured with them
+		d := [4]string{"[[", "]]", "<%", "%>"}
+		ok := true
+		sp := func(src string) string {
+			rs, toks := respell(src, d)
+			if !sameTokens(toks, c19Tokens(rs, d)) {
+				ok = false
+			}
+			return rs
+		}
+		newTop := sp(topSrc)
+		newSrcs := make([]string, len(files))
+		for k, f := range files {
+			newSrcs[k] = sp(f.src)
+		}
+		if ok {
+			topSrc = newTop
+			for k, f := range files {
+				f.src = newSrcs[k]
+				if f.cacheAlt != nil {
+					f.cacheAltSrc = sp(gen.DefaultStyle.Source(f.cacheAlt))
+				}
+			}
+		}
+		if ok {
+			e.Delims(d[0], d[1], d[2], d[3])
+			c.Obs("graphs_with_custom_delimiters", 1)
+		}
+	}
 	m := &ref.Model{Files: map[string][]gen.Node{}, FailFiles: map[string]bool{}}
 	for _, f := range files {
 		joined := filepath.Join(filepath.Dir(topPath), f.arg)
@@ -195,6 +226,9 @@ func c14Case(c *core.Ctx, r *core.Rand, i int, caseDir string) {
 			csrc := f.src
 			if f.state == 2 {
 				csrc = gen.DefaultStyle.Source(f.cacheAlt)
+				if f.cacheAltSrc != "" {
+					csrc = f.cacheAltSrc
+				}
 			}
 			if f.state == 1 && f.fail >= 2 {
 				// unparseable source cannot be registered in the cache; make it a disk file instead
